@@ -1,7 +1,7 @@
 #!/bin/bash
 # dev helper: devbenign.py over stored benign facts (all, or those matching the glob suffix given, e.g. "s"), one process per seed
 cd /verif
-SUF="${1:-[rstu]}"
+SUF="${1:-[rstuv]}"
 ls -d .work/facts-C*-$SUF | sed 's#.work/facts-##' | xargs -P 6 -I{} sh -c 'NVIOL=${NVIOL:-4} NDIFF=0 python3 devbenign.py {} > .work/devbenign-{}.out 2>&1'
 for f in $(ls .work/devbenign-C*-$SUF.out); do grep -v "^TOTAL\|WARNING" $f; done
 echo "TOTAL: $(cat .work/devbenign-C*-$SUF.out | grep -c '  violation')+"
